@@ -101,7 +101,12 @@ def correspondence(ctx):
                 "correlations set before or after deriving); observed: value, error, sorted source ids, derivative w.r.t. every "
                 "measurement; compared in Q with Model.CoreQ (1e-9 relative). non-trivial = at least two derived objects "
                 "(sharing possible), distinct by content. 70% of the programs stay in the rational fragment "
-                "{+,-,*,/,neg,** integer}; numbers the model cannot compute in Q are skipped and counted")
+                "{+,-,*,/,neg,** integer}; numbers the model cannot compute in Q are skipped and counted. Central values include 0 "
+                "(under whole powers >= 1), 1, -1, 2, 10, 100 and equal values in distinct measurements; uncertainties include "
+                "2^-14 ... 2^-20 (12% of the programs use only such); constants arrive as numpy scalars of every width / Fraction / "
+                "bool; 20% of the results are read before they are used as operands; 60% of the programs get a second phase: a "
+                "central value, an uncertainty, or the central value of an intermediate result is changed, every result "
+                "recalculated and observed again")
     res.samples = [{"steps": c["steps"][:8], "corr": c["corr"]} for c in cases[:2]]
     for c in cases:
         if "error" in c:
